@@ -304,6 +304,11 @@ func (col *collector) collectObservation(
 		if ov, ok := a.observer.obsVars[ev.varName]; ok {
 			a.observer.hasData = true
 			ov.hasData = true
+			if ev.varName.actorName == "" && ev.typ == sigTypEvent {
+				// A variable (mood, computes, collects) has no declared
+				// type: it is drawn the way its samples are written.
+				ov.drawEvents = true
+			}
 		}
 
 		fName := filepath.Join(col.cfg.dataDir, "csv",
